@@ -17,7 +17,7 @@ from pyvc.sym import And, Or, Not, Implies, ite
 from pyvc.vc import oset
 from pyvc.values import Coroutine, Instance, BytesVal, ABytes, DequeVal, Opaque
 from pyvc.world import WriterModel, ReaderModel
-from pyvc.interp import PathEnd
+from pyvc.interp import PathEnd, LoopCut
 from contracts.sockworld import SockWorld, SOCK, COMMS, ENCODE_EXCEPTIONS, DECODE_EXCEPTIONS
 
 A = SOCK + ":AirTouchSocket."
@@ -175,7 +175,7 @@ def _drain_iteration(h, first):
                 raise PathEnd()
             it.exec_block(node.body, env)
             # the body completed normally: the next iteration is another arbitrary iteration
-            raise PathEnd()
+            raise LoopCut()
         return None
 
     h.it.loop_hooks[(F_DRAIN, 0)] = loop_hook
@@ -505,7 +505,7 @@ def read_contract(h):
             if not it.test(it.eval(node.test, env)):
                 raise PathEnd()
             it.exec_block(node.body, env)
-            raise PathEnd()  # next iteration = another arbitrary iteration
+            raise LoopCut()  # next iteration = another arbitrary iteration
         return None
 
     h.it.loop_hooks[(F_READ, 0)] = loop_hook
@@ -542,7 +542,7 @@ def read_failures(h):
         if state["n"] == 0:
             state["n"] = 1
             it.exec_block(node.body, env)
-            raise PathEnd()
+            raise LoopCut()
         return None
 
     h.it.loop_hooks[(F_READ, 0)] = loop_hook
